@@ -7,8 +7,10 @@ sys.path.insert(0, os.path.join(ROOT, "tools"))
 from claims import NOT_APPLICABLE, HOOK_COMMITS  # noqa
 import glob
 CLAIMS = {}
+READY = set(open(os.path.join(ROOT, "tools", "ready.txt")).read().split())
 for f in sorted(glob.glob(os.path.join(ROOT, "tools", "claims.d", "C*.json"))):
-    CLAIMS[os.path.basename(f)[:-5]] = json.load(open(f))
+    if os.path.basename(f)[:-5] in READY:  # only checks the lead has accepted are claimed
+        CLAIMS[os.path.basename(f)[:-5]] = json.load(open(f))
 
 props = [json.loads(l) for l in open(os.path.join(ROOT, "properties.jsonl"))]
 ids = [p["id"] for p in props]
